@@ -12,7 +12,7 @@
    converted with np.asarray, top padding of -t0 rows, exported chunks cast to the declared dtype
    before the multiplication by the unit factor. *)
 From Coq Require Import ZArith List Lia Bool.
-From PV Require Import Base.PySlice Base.NpSearch Base.NpList C16.Model.
+From PV Require Import Base.PySlice Base.NpSearch Base.NpList C16.Model C16.Spec.   (* C16.Spec: memZ *)
 Import ListNotations.
 Open Scope Z_scope.
 
@@ -172,9 +172,6 @@ Definition np_load (f : npy) : option (list (list (list A))) :=
 
 (* ---------------- get_spike_waveforms ---------------- *)
 Record store := mkstore { st_ids : list Z; st_ch : list (list Z); st_w : list (list (list A)) }.
-
-Fixpoint memZ (x : Z) (l : list Z) : bool :=
-  match l with [] => false | y :: r => (x =? y) || memZ x r end.
 
 (* np.unique: sorted, without duplicates *)
 Fixpoint insert_u (x : Z) (l : list Z) : list Z :=
